@@ -427,6 +427,8 @@ def run(ctx):
     rule_limits(ctx, cfg, r4)
     r6 = ctx.rule("R10.6", "length limiting: over-long codes always merged into the limit bucket, Kraft-neutral rebalancing step, applied before sizes are assigned", floor=6, config=cfg)
     rule_length_limit(ctx, cfg, r6)
+    r7 = ctx.rule("R10.7", "distances never reach before the start: every admitted match distance is at most dict.size", floor=3, config=cfg)
+    dp.rule_history_bound(ctx, cfg, r7)
     r5 = ctx.rule("R10.5", "exactly one final block: in-loop blocks use flush None; the final block carries the requested flush", floor=4, config=cfg)
     from rules import c02
     c02.rule_result_discipline(ctx, cfg, r5)
